@@ -426,7 +426,9 @@ XInitRes ==
          /\ (v = Absent => a.mode # "required")
          /\ cfg = [pa |-> <<FixedAttr>>, ra |-> <<a>>, tagged |-> t, devs |-> Deviations] /\ rv = <<v>>
   /\ pv = <<FixedVal>> /\ xflag = "none" /\ Idle
-XNext == (IF pc = "route" /\ \E i \in PIdx : wire[i].loc # "none" /\ Malformed(wire[i].v) THEN XTypeReject ELSE Next) /\ UNCHANGED xflag
+\* (a raw request is what it is: the choices a generated client has when it encodes - HTTPTransport's WireChoices - do not exist)
+XNext == /\ (IF pc = "route" /\ \E i \in PIdx : wire[i].loc # "none" /\ Malformed(wire[i].v) THEN XTypeReject ELSE Next) /\ UNCHANGED xflag
+         /\ (pc = "encode" /\ xflag \in {"null", "omit", "rd+omit"} => wire' = [i \in PIdx |-> ClientWire(cfg.pa[i], pv[i])])
 \* with several attributes per method (simulation) the exchange is drawn attribute by attribute by HTTPTransport's Init / Pick*
 XSpec == (IF NPA = 1 /\ NRA = 1 THEN (IF Family = "req" THEN XInit ELSE XInitRes) ELSE Init /\ xflag = "none")
          /\ OInit /\ [][XNext /\ UNCHANGED ovars]_<<hvars, ovars>>
